@@ -26,6 +26,8 @@ class PathAbort(EngineSignal):
 
 
 _CUR = [None]      # current Explorer
+_E = 2.718281828459045
+_PI = 3.141592653589793
 
 
 def current():
@@ -108,7 +110,12 @@ def lift(x):
     if isinstance(x, (int, _np.integer)):
         return T.const(int(x))
     if isinstance(x, (float, _np.floating)):
-        return T.const(float(x))
+        x = float(x)
+        if x == _E:
+            return T.var('EULER')
+        if x == _PI:
+            return T.var('PI')
+        return T.const(x)
     if isinstance(x, Fraction):
         return T.const(x)
     if isinstance(x, _np.ndarray) and x.ndim == 0:
